@@ -1,5 +1,6 @@
 import Pycoin.Driver.Core
 import Pycoin.Model.Curve
+import Pycoin.Model.NativeCurve
 import Pycoin.Gen.Curves
 /-!
 C02 ops.  Curves: `secp256k1`, `secp256r1`, `bls12_381`, or inline `toy:p:a:b:gx:gy:n`; an optional
@@ -7,7 +8,7 @@ C02 ops.  Curves: `secp256k1`, `secp256r1`, `bls12_381`, or inline `toy:p:a:b:gx
 the model.  Points: `x,y` or `inf`.
 -/
 namespace Pycoin.Driver.C02
-open Pycoin.Curve Pycoin.Driver
+open Pycoin.Curve Pycoin.Driver Pycoin.Native
 
 def parseCurve? (s : String) : Option CurveParams :=
   let name := (s.splitOn "/").headD ""
@@ -32,11 +33,7 @@ def showPt : Pt → String
 def configOf (s : String) : String := ((s.splitOn "/").drop 1).headD "pure"
 
 /-- the OpenSSL class returns `self.Point(x, y)` with the coordinates OpenSSL hands back, which are reduced;
-the pure ladder hands an operand back as given when the scalar is ≡ 1.  Same group element. -/
-def reducePt (c : CurveParams) : Pt → Pt
-  | none => none
-  | some (x, y) => some (Pycoin.fmod x c.p, Pycoin.fmod y c.p)
-
+the pure ladder hands an operand back as given when the scalar is ≡ 1.  Same group element (`Native.reducePt`). -/
 def viaBackend (cfg : String) (c : CurveParams) (r : Except Err Pt) : Except Err Pt :=
   if cfg = "openssl" then r.map (reducePt c) else r
 
@@ -128,6 +125,59 @@ def handle : Handler := fun op args =>
   | "ec_shared", [ct, d, Q] => do
     let c ← parseCurve? ct
     some (showRes showPt (viaBackend (configOf ct) c (sharedPublicKey c (← parseInt? d) (← parsePt? Q))))
+  -- the GLUE MODEL of native/openssl.py run over `pureLib` (libcrypto played by the pure model), compared with the real
+  -- OpenSSL-configured class.  `ec_ossl_mul` hands the glue a raw tuple (no `Point` constructor in front of it)
+  | "ec_ossl_mul", [ct, P, k] => do
+    let c ← parseCurve? ct
+    some (showRes showPt (Ossl.multiply (pureLib c) c (← parsePt? P) (← parseInt? k)))
+  | "ec_ossl_rawmul", [ct, k] => do
+    let c ← parseCurve? ct
+    some (showRes showPt (Ossl.rawMul (pureLib c) c (← parseInt? k)))
+  | "ec_ossl_inv", [ct, a, m] => do
+    let c ← parseCurve? ct
+    some (showRes toString (Ossl.inverseMod (pureLib c) (← parseInt? a) (← parseInt? m)))
+  | "ec_ossl_add", [ct, P, Q] => do
+    let c ← parseCurve? ct; let P ← parsePt? P; let Q ← parsePt? Q
+    if ¬ (containsPoint c P ∧ containsPoint c Q) then some "err NoSuchPointError" else
+    some (showRes showPt (Gen.add (Ossl.methods (pureLib c) c) c P Q))
+  | "ec_ossl_blindmul", [ct, k, b] => do
+    let c ← parseCurve? ct
+    some (showRes showPt (Gen.mulG (Ossl.methods (pureLib c) c) c (Pycoin.fmod (← parseInt? b) c.n) (← parseInt? k)))
+  | "ec_ossl_shared", [ct, d, Q] => do
+    let c ← parseCurve? ct
+    some (showRes showPt (Gen.sharedPublicKey (Ossl.methods (pureLib c) c) c (← parseInt? d) (← parsePt? Q)))
+  -- what the CONTRACT says the library calls return (return codes included), asked of the real library by the harness
+  | "ossl_probe", [ct, "mul", P, k] => do
+    let c ← parseCurve? ct
+    let L := pureLib c
+    match ← parsePt? P with
+    | none => none
+    | some (x, y) =>
+      match Ossl.bnInit L x, Ossl.bnInit L y, Ossl.bnInit L (← parseInt? k) with
+      | .ok bx, .ok by_, .ok bn =>
+        let s := L.setAffine L.ecPointNew bx by_
+        let m := L.ecMul L.ecPointNew s.2 bn
+        let g := L.getAffine m.2 bx by_
+        some s!"ok {showBool s.1} {showBool m.1} {showBool g.1} {Ossl.toInt L g.2.1},{Ossl.toInt L g.2.2}"
+      | _, _, _ => some "err OverflowError"
+  | "ossl_probe", [ct, "inv", a, m] => do
+    let c ← parseCurve? ct
+    let L := pureLib c
+    match Ossl.bnInit L (← parseInt? a), Ossl.bnInit L (← parseInt? m) with
+    | .ok ba, .ok bm =>
+      match L.modInverse ba bm with
+      | none => some s!"ok null {Ossl.toInt L ba}"
+      | some r => some s!"ok ptr {Ossl.toInt L r}"
+    | _, _ => some "err OverflowError"
+  | "ossl_probe", [ct, "bn", v] => do
+    let c ← parseCurve? ct
+    let L := pureLib c
+    match Ossl.bnInit L (← parseInt? v) with
+    | .ok b => some s!"ok {Ossl.toInt L b} {showBool b.neg} {b.d.length}"
+    | .error e => some ("err " ++ e.tag)
+  | "ossl_probe", [ct, "group"] => do
+    let c ← parseCurve? ct
+    some s!"ok {c.p} {Pycoin.fmod c.a c.p} {Pycoin.fmod c.b c.p} {c.gx} {c.gy} {c.n}"
   | "ec_gen_init", [c, b] => do
     let c ← parseCurve? c
     some (showRes (fun _ => "1") (generatorInit c (Pycoin.fmod (← parseInt? b) c.n)))
